@@ -1,7 +1,9 @@
 package sched
 
 import (
+	"bytes"
 	"context"
+	"runtime"
 	"runtime/pprof"
 	"strconv"
 	"unsafe"
@@ -31,4 +33,25 @@ func tagCurrent(id int) uint64 {
 
 func untagCurrent() {
 	pprof.SetGoroutineLabels(context.Background())
+}
+
+// realGID parses the goroutine id from the stack header (about 5 µs; used only once per
+// thread and by the strict check of rare, heavy hooks).
+func realGID() uint64 {
+	var buf [64]byte
+	n := runtime.Stack(buf[:], false)
+	b := buf[:n]
+	b = b[len("goroutine "):]
+	i := bytes.IndexByte(b, ' ')
+	id, _ := strconv.ParseUint(string(b[:i]), 10, 64)
+	return id
+}
+
+// Strict reports whether the calling goroutine is a controlled thread's OWN goroutine, not a
+// helper goroutine the thread started (helpers inherit the label set). The store and
+// identity-provider hooks of the world use it: client libraries may issue requests from
+// helper goroutines (go-oidc fetches keys that way), and those must pass through unscheduled.
+func Strict() bool {
+	t := Current()
+	return t != nil && t.realGID == realGID()
 }
